@@ -2,7 +2,7 @@ CHECK = {
     "level": "exploration",
     "engine": "flv-file",
     "technique": "runtime monitor over PRNG-generated FLV files: library muxer output compared byte for byte with an independent FLV v1 writer and read by an independent strict parser; library demuxer run over library-written and reference-written files through a segmenting reader",
-    "level_text": "Held on the executions observed: thousands (quick) to 10^5 (thorough) generated files - all 4 header-flag combinations, 0..12 tags with boundary sizes (0, 1, 255, 256, 65535, 65536, a fixed few 2^24-1), boundary timestamps (0, 2^24-1, 2^24, 2^24+1, 2^31, 2^32-1, random), arbitrary type bytes - pushed through the real Muxer and Demuxer, with counters taken from what the demuxer returned showing which size/timestamp/type/segmentation classes were reached. Not a proof; sequences, sizes and segmentations outside the generator's pools are not covered.",
+    "level_text": "Held on the executions observed: thousands (quick) to 10^5 (thorough) generated files - all 4 header-flag combinations, 0..12 tags with boundary sizes (0, 1, 255, 256, 65535, 65536, a fixed few 2^24-1), boundary timestamps (0, 2^24-1, 2^24, 2^24+1, 2^31, 2^32-1, random), arbitrary type bytes - pushed through the real Muxer and Demuxer (bodies handed to the muxer as windows of a larger buffer with a canary in the spare capacity; every body returned by the demuxer kept and re-examined after all later reads), with counters taken from what the demuxer returned showing which size/timestamp/type/segmentation classes were reached. Not a proof; sequences, sizes and segmentations outside the generator's pools are not covered.",
     "level_note": "Trusts the harness's reference writer/parser (refflv, written from Annex E as summarised in DESIGN.md section 6) as the definition of the layout, the segmenting reader, and Go's runtime. Only whole files are fed (no truncated streams - that is C08), the muxer writes into an in-memory buffer that never fails, 2^24-1-byte bodies appear in 2 (quick) / 24 (thorough) files and are not read 1 byte at a time. 'No further tag after the last one' is asserted as part of 'returned in order ... identical'; the kind of error that reports the end is only counted.",
     "parts": [
         {"name": "files", "pkg": "verifharness/prop/c09", "run": "^TestVerif_C09_Files$",
